@@ -21,8 +21,8 @@ open KotoVerif KotoVerif.Iter
 
 /-- **iter_refines.** For every well-formed pipeline `p` without endless parts — any composition of
 `each, keep, take, take_while, skip, step, chain, zip, enumerate, chunks, windows, flatten,
-intersperse(_with), reversed, peekable, keys/values` over list/tuple/map/range/string/bytes/generator/
-`@next` object/`repeat n` sources — the iterator built by the state machines yields exactly `den p`
+intersperse(_with), reversed, peekable, keys/values` over list/tuple/map/range/string/bytes/host
+bytes/generator/`@next` object/`repeat n` sources — the iterator built by the state machines yields exactly `den p`
 (`take = List.take`, `skip = drop`, `chain = ++`, `keep = filter`, `each = map`,
 `reversed = reverse`, …) and then `None` forever, for any number of `next` calls. -/
 theorem iter_refines (fuel : Nat) (p : Pipe) (xs : List Val)
@@ -141,46 +141,22 @@ theorem cycle_of_empty (fuel : Nat) (p : Pipe)
 example : outs (build 8 (.cycle (.src (.seq [])))).c 2 (build 8 (.cycle (.src (.seq [])))).s = [none, none] :=
   cycle_of_empty 8 (.src (.seq [])) rfl rfl rfl trivial 2
 
-/-- The host byte iterator (`KIterator::with_bytes`) is *not* double-ended-correct as the code stands:
-`ByteIterator::next_back` reads `bytes[self.index]`, so the first back call on `a, b` returns `a`
-(finding F-C13-1; the model mirrors the code). `iter_refines`/`reversed_spec` exclude this source
-(`Pipe.regular`). -/
-theorem byteiter_back_wrong :
-    ¬ (∀ ds, outsD (hostBytesCo [Val.int 97, Val.int 98]) ds ⟨0, 2⟩ = idealD ds [Val.int 97, Val.int 98]) := by
-  intro h
-  have := h [false]
-  simp [outsD, idealD, hostBytesCo] at this
-  have h2 : (Int64.ofInt 97) = (Int64.ofInt 98) := by
-    simp only [Val.int] at this
-    injection this with this
-    injection this
-  revert h2
-  decide
+/-- **byteiter_double_ended.** The host byte iterator (`KIterator::with_bytes`) answers every
+interleaving of `next` / `next_back` like the ideal double-ended byte sequence. (Before /repo commit
+0c6b903 `ByteIterator::next_back` read `bytes[self.index]` and this statement was false — finding
+F-C13-1, now fixed; the source is covered by `iter_refines` / `reversed_spec` like any other.) -/
+theorem byteiter_double_ended (xs : List Val) :
+    ∀ ds, outsD (hostBytesCo xs) ds ⟨0, xs.length⟩ = idealD ds xs := hostBytes_deq xs
 
-/-- what the host byte iterator does satisfy: forward iteration is exact (partial: its back end is
-excluded, see `byteiter_back_wrong`) -/
-theorem byteiter_forward_partial (xs : List Val) :
-    ∀ n, outs (hostBytesCo xs) n ⟨0, xs.length⟩ = ideal n xs := by
-  have : ∀ i, Fwd (hostBytesCo xs) ⟨i, xs.length⟩ (xs.drop i) := by
-    intro i
-    apply fwd_coind (hostBytesCo xs) (fun (s : Idx) ys => s.stop = xs.length ∧ ys = xs.drop s.idx)
-    · intro (s : Idx) ⟨h1, h3⟩
-      have hlen := drop_eq_nil_len h3
-      have hc : ¬ s.idx < s.stop := by omega
-      simp [hostBytesCo, hc]
-      exact ⟨h1, hlen⟩
-    · intro (s : Idx) x ys ⟨h1, h3⟩
-      have ⟨hx, hys, hlt⟩ := drop_eq_cons h3
-      have hc : s.idx < s.stop := by omega
-      simp [hostBytesCo, hc]
-      exact ⟨hx, h1, hys⟩
-    · exact ⟨rfl, rfl⟩
-  have h := this 0
-  simp only [List.drop_zero] at h
-  exact h
+example : outsD (hostBytesCo [Val.int 97, Val.int 98, Val.int 99]) [false, false, true, true] ⟨0, 3⟩
+    = [some (Val.int 99), some (Val.int 98), some (Val.int 97), none] :=
+  byteiter_double_ended [Val.int 97, Val.int 98, Val.int 99] _
 
-example : outs (hostBytesCo [Val.int 97, Val.int 98]) 3 ⟨0, 2⟩ = [some (Val.int 97), some (Val.int 98), none] :=
-  byteiter_forward_partial _ 3
+/-- reversed host bytes, through the pipeline theorem -/
+example : (runCase 8 (.reversed (.src (.hostBytes [Val.int 97, Val.int 98, Val.int 99]))) .toList).1
+    = .ok (.list [Val.int 99, Val.int 98, Val.int 97]) :=
+  to_list_refines 8 (.reversed (.src (.hostBytes [Val.int 97, Val.int 98, Val.int 99])))
+    [Val.int 99, Val.int 98, Val.int 97] rfl rfl rfl trivial (by simp)
 
 /-! ## lazy: adaptors pull only when consumed, one at a time, in order -/
 
@@ -326,9 +302,11 @@ example : (runLoop 3 (listIt [Val.int 5, Val.int 6]) .toList).1 = .ok (.list [Va
 
 /-- **copy_independent.** States are values, so a copy made after `k` steps and the original are the
 same state run twice: whichever is drained first, both yield exactly the remaining sequence
-`xs.drop k` — draining one does not advance the other. (The tie of `make_copy` to this value
-semantics is the correspondence check; aliasing through a shared `KIterator`, `Peekable`'s derived copy
-and `@next` objects are outside this statement — findings F-C13-2, F-C13-3.) -/
+`xs.drop k` — draining one does not advance the other. This holds for every iterator state,
+pipelines containing `peekable` included (`Peekable::copy` copies the wrapped iterator since /repo
+commit 7e68542, finding F-C13-2 fixed). The tie of `make_copy` to this value semantics is the
+correspondence check; aliasing through a shared `KIterator` handle and the position an `@next` object
+keeps in its own map (finding F-C13-3) are outside this statement. -/
 theorem copy_independent (fuel : Nat) (it : It) (xs : List Val) (k : Nat) (first : Bool)
     (h : Fwd it.c it.s xs) (hlen : xs.length < fuel) :
     (runCons fuel it (.copyAt k first)).1 = .ok (.tuple [.list (xs.drop k), .list (xs.drop k)]) := by
@@ -356,6 +334,13 @@ theorem copy_independent (fuel : Nat) (it : It) (xs : List Val) (k : Nat) (first
   simp only at hd
   subst hd
   cases first <;> simp
+
+/-- a copied peekable pipeline -/
+example : (runCons 8 (build 8 (.peekable (.src (.seq [Val.int 1, Val.int 2, Val.int 3])))) (.copyAt 1 false)).1
+    = .ok (.tuple [.list [Val.int 2, Val.int 3], .list [Val.int 2, Val.int 3]]) :=
+  copy_independent 8 _ [Val.int 1, Val.int 2, Val.int 3] 1 false
+    ((pipe_sem 8 (.peekable (.src (.seq [Val.int 1, Val.int 2, Val.int 3])))
+      [Val.int 1, Val.int 2, Val.int 3] rfl rfl rfl trivial).1) (by simp)
 
 example : (runCons 8 (build 8 (.each .ident (.src (.gen 0 [Val.int 1, Val.int 2, Val.int 3])))) (.copyAt 1 true)).1
     = .ok (.tuple [.list [Val.int 2, Val.int 3], .list [Val.int 2, Val.int 3]]) :=
